@@ -43,7 +43,7 @@ def campaign(c):
     for i in range(60 if c.quick else 2000):
         r = c.rng.fork('int%d' % i); ints.append(r.below(2 ** r.choice([8, 16, 32, 63, 64, 65, 70])))
     for v in ints:
-        for z in ('', '0', '000'):
+        for z in ('', '0', '000', '0' * 17, '0' * 40):
             expect_value(c, z + str(v), 'u64:%d' % v if v < M else None)
             expect_value(c, '0x' + z + '%x' % v, 'u64:%d' % v if v < M else None)
             expect_value(c, '0x' + z + '%X' % v, 'u64:%d' % v if v < M else None)
